@@ -238,8 +238,7 @@ class Ctx:
             # re-run once, alone-ish, with a 5x limit: a single expiry is never a verdict
             r2 = run_proc([exe] + list(args), cwd or self.dir, env_extra=env, stdin=stdin, timeout=timeout * 5)
             self.out.execs += 1
-            if not r2.timed_out:
-                r = r2
+            r = r2          # the second, longer run is the one that counts (also when it expired as well)
         self.out.execs += 1
         self.out.runs.append(r)
         return r
